@@ -23,7 +23,8 @@ RULE = ("rule-based state machine (Hypothesis): histories of up to 15 operations
         "pose model is compared after every step against the caches that exist (without materialising others) and all views at "
         "the end; plus exhaustive enumeration of all operation sequences to depth 3 (thorough: 4) over fixed representative "
         "arguments. Non-trivial = >= 2 mutating operations with >= 1 read between them; distinct by operation-name sequence + "
-        "storage mode")
+        "storage mode"
+        ' Round-3 additions: similarities with scale 1 +- {3e-5..2e-4}, left Sim(3) with the propagate flag, CLI-style scale-only align, time axes with a stamp exactly 0.0 and negative stamps.')
 ASSUMPTIONS = ["positions compared with relative tolerance 1e-9 of the largest coordinate seen, orientations 1e-9",
                "after projection the model adopts evo's heading (the statement only fixes 'rotation about the normal'); kept ids of "
                "filters are identified by matching poses and judged with the C11 checkers"]
